@@ -189,9 +189,17 @@ def main(tier, replay=None):
     if replay:
         a = replay["artefact"]
         print("id %s  first seen in %s (corpus part %s, options %s)" % (a["id"], a["file"], a["part"], " ".join(a["options"])))
-        print("expected: id listed by --errorlist (or produced by a library <warn> entry)")
-        print("listed by --errorlist now:", a["id"] in listed)
-        return 0 if a["id"] in listed else 1
+        with run.WS() as ws:
+            names = []
+            for n, c in (a.get("sources") or {}).items():
+                ws.write(n, c)
+                names.append(n)
+            if not names:
+                names = [a["file"]]
+            ids, st = observe(a["options"][len(BASE):], sorted(n for n in names if not n.endswith(".h")), ws.dir, 300)
+        print("expected: every reported id is listed by --errorlist (or produced by a library <warn> entry)")
+        print("observed now: run %s, id reported: %s, listed by --errorlist: %s" % (st, a["id"] in ids, a["id"] in listed))
+        return 1 if a["id"] in ids and a["id"] not in listed else 0
     passes = [[]] if tier == "quick" else [[], ["--check-level=exhaustive"]]
     snippets = testsnippets.extract()
     observed = {}        # id -> (part, file, options)
@@ -267,9 +275,16 @@ def main(tier, replay=None):
         if k in exempt_ids or k in runlevel:
             continue
         part, f, opts = observed[k]
+        sources = None
+        m = re.match(r"^[sc](\d{5})\.c(pp)?$", f or "")
+        if m:
+            sources = {f: snippets[int(m.group(1))][1]}
+        elif part.startswith("handmade:"):
+            sources = {n: (c.decode("latin-1") if isinstance(c, bytes) else c)
+                       for name, files, o, cl in handmade() if name == part[9:] for n, c in files.items()}
         ctx.violation("id:" + k, "finding id '%s' was reported (first for %s, corpus part %s, options %s) but is not listed "
                       "by --errorlist" % (k, f, part, " ".join(BASE + opts)),
-                      {"id": k, "file": f, "part": part, "options": BASE + opts})
+                      {"id": k, "file": f, "part": part, "options": BASE + opts, "sources": sources})
     for k in sorted(observed):
         ctx.distinct("id:" + k)
     ctx.cov.update({
